@@ -15,6 +15,7 @@ import json
 import re
 
 import harness as H
+import translate
 from vlib import clist, cbool
 
 LEVEL = "proof"
@@ -77,6 +78,50 @@ def reinode(rng, builder):
             act.inode = None
 
 
+def gen(ctx):
+    """T-tie: regenerate coq/gen/NameToPath.v from ioflo/aid/aiding.py nameToPath (fail-closed)"""
+    try:
+        text = translate.render(translate.extract(ctx.repo))
+    except translate.Untranslatable as ex:
+        ctx.tie_broken("translator", "props/C13/translate.py (nameToPath)", str(ex))
+        return None
+    ctx.write_gen("NameToPath.v", text)
+    return text
+
+
+def name_cases(ctx):
+    """the real aiding.nameToPath, the harness reference rule and the Coq models on names with runs of
+    capitals, digits, underscores: exhaustive over a 6 letter alphabet up to length 4 + random longer"""
+    import itertools
+    from ioflo.aid.aiding import nameToPath
+    names = []
+    for n in range(0, ctx.n(4, 5)):
+        names += ["".join(t) for t in itertools.product("ABcd1_", repeat=n)]
+    for _ in range(ctx.n(300, 3000)):
+        names.append("".join(ctx.rng.choice("ABCXYZabcxyz019_") for _ in range(ctx.rng.randint(1, 12))))
+    codes = lambda s_: "[" + "; ".join(str(ord(c)) for c in s_) + "]" if s_ else "(@nil N)"
+    cases, metas = [], []
+    for nm in names:
+        real = nameToPath(nm)
+        ref = H.ref_actor_parts(nm)
+        ctx.case({"name": nm, "path": real}, nontrivial=any(c.isupper() for c in nm), kind="nameToPath")
+        cases.append(("(ref_name_to_path %s, actor_parts_of (ref_name_to_path %s))" % (codes(nm), codes(nm)),
+                      "(%s, [%s])" % (codes(real), "; ".join(codes(p_) for p_ in ref))))
+        metas.append((nm, real, ref))
+    hdr = ("From Coq Require Import List NArith Bool.\nImport ListNotations.\nRequire Import V.C13.NameModel.\n"
+           "Open Scope N_scope.\n"
+           "Fixpoint l_eqb (a b : list N) := match a, b with [], [] => true | x::a', y::b' => N.eqb x y && l_eqb a' b' "
+           "| _, _ => false end.\n"
+           "Fixpoint ll_eqb (a b : list (list N)) := match a, b with [], [] => true | x::a', y::b' => l_eqb x y && "
+           "ll_eqb a' b' | _, _ => false end.\n"
+           "Definition n_eqb (a b : list N * list (list N)) := l_eqb (fst a) (fst b) && ll_eqb (snd a) (snd b).\n")
+    bad = ctx.coq_cases(hdr, "n_eqb", cases, name="names")
+    for i in bad[:5]:
+        ctx.tie_broken("correspondence", "nameToPath: documented rule (Coq) vs aiding.nameToPath / harness reference",
+                       "name=%r real=%r reference parts=%r" % metas[i])
+    ctx.extra["nameToPath_mismatches"] = len(bad)
+
+
 def run(ctx):
     H.quiet()
     ctx.rule = ("(a) contexts = live Acts of houses built by the real Builder from generated FloScript programs "
@@ -93,7 +138,9 @@ def run(ctx):
         "names are not one of '' framer me main frame actor (hypothesis of the theorems; FloScript reserves them)",
         "Store.create/createNode are observed (wrapped), not modelled",
     ]
+    gen(ctx)
     ctx.coq_build("C13/Props.v")
+    name_cases(ctx)
 
     rng = ctx.rng
     cases, metas, seen = [], [], set()
@@ -143,6 +190,8 @@ def run(ctx):
         ctx.case({"program": pi, "built": ok}, nontrivial=ok, kind="build:" + ("ok" if ok else "rejected"))
         # (b) every single renaming
         for ent in sorted(names):
+            if ent.startswith("K"):
+                continue       # actor names map to several segments: covered by the reference oracle (c)
             new = "nova"
             n2 = dict(names)
             n2[ent] = new
@@ -211,10 +260,13 @@ def rename_witness(ctx, m):
     written, rel = m["written"], m["relation"]
     I = H.Interner()
     runs, exprs = [], []
-    for ent in [None] + sorted(names):
+    cands = [(None, None)] + [(e, "nova") for e in sorted(names)]
+    # an actor renamed to the same letters with other capitals (a bc -> abc): a different name
+    cands += [(e, names[e].replace(" ", "")) for e in sorted(names) if e.startswith("K") and " " in names[e]]
+    for ent, new in cands:
         n2 = dict(names)
         if ent:
-            n2[ent] = "nova"
+            n2[ent] = new
         ok, b = H.build(H.render(spec, n2), ctx.work, "w")
         if not ok:
             continue
@@ -222,7 +274,7 @@ def rename_witness(ctx, m):
             c = H.extract_ctx(act)
             if c is None or (c["names"]["framer"] != m["framer"] and ent is None):
                 continue
-            runs.append((ent, names[ent] if ent else None, dest))
+            runs.append((ent, (names[ent], new) if ent else None, dest))
             exprs.append("match norm %s with Ok l => l | _ => [999] end" % ref_expr(I, n2, c, written, rel))
             break
     outs = ctx.coq_eval(STATE["rheader"], exprs, name="witness")
@@ -231,7 +283,7 @@ def rename_witness(ctx, m):
     base_real, base_pred = runs[0][2], pred[0]
     for (ent, old, real), p in zip(runs[1:], pred[1:]):
         if (real != base_real) != (p != base_pred):
-            return {"rename": [old, "nova"], "reference": written, "relation": rel,
+            return {"rename": list(old), "reference": written, "relation": rel,
                     "share_before": base_real, "share_after": real,
                     "expected_before": base_pred, "expected_after": p,
                     "note": "the share path %s under this renaming, the reference's resolution %s"
